@@ -194,6 +194,7 @@ struct Run
 	bool failed = false;
 	bool anyDecline = false;
 	bool knownFifoPutBack = false;
+	bool emptyDuringPredicateCall = false;
 	bool heter = false;
 	int dqnAlive = 0;
 	std::ostringstream log;
@@ -271,6 +272,7 @@ struct Run
 		if(! r) anyDecline = true;
 		return r;
 	}
+	static void copyPoint() { schedPoint("payload.copy"); }
 	static void dtorObserver(int id) {
 		if(! g_run || id < kPayloadBase || id >= kPayloadBase + 1000000) return;
 		Run & r = *g_run;
@@ -524,6 +526,15 @@ struct Run
 				if(! c.zeroTimeout && ! c.timeoutFiredDuring) { fail("cq.waitfor.false", "C07", "waitFor returned false although its timeout never fired"); return; }
 			}
 			if(! sawEmpty) continue;
+			if(c.kind == C_EMPTYQ) {
+				// C11 quantifies over threads running process / processOne / takeEvent / clearEvents. While a processIf /
+				// processUntil call is in progress emptyQueue() can read the list while the events are in that call's batch
+				// and the counter after the call has put them back and ended: outside the quantifier, not judged.
+				// (waitFor evaluates its predicate under queueListMutex, which the put-back needs: it is judged in full.)
+				bool predicateCall = false;
+				for(const CallRec & o : calls) if((o.kind == C_PROCESSIF || o.kind == C_PROCESSUNTIL) && o.t0 <= c.t1 && (o.t1 < 0 || o.t1 >= c.t0)) predicateCall = true;
+				if(predicateCall) { emptyDuringPredicateCall = true; continue; }
+			}
 			for(const EventRec & e : events) {
 				if(e.enqEnd < 0 || e.enqEnd >= c.t0) continue; // enqueue had not completed before the observation began
 				bool done = false;
@@ -599,6 +610,9 @@ struct Run
 		ChoiceSource choice(scripted ? choiceProg : prog, fnv1a(toText(prog)));
 		installSchedHook();
 		dtorHook() = &Run::dtorObserver;
+		// params[3] == 1 (new generated cases) or a scripted run: every copy / move of a payload is a scheduling point.
+		// Saved replays with three parameters keep their meaning.
+		copyHook() = (scripted || (prog.params.size() > 3 && prog.params[3] == 1)) ? &Run::copyPoint : nullptr;
 		sched.reset(new Sched(choice, scripted ? 3 : strategy, scripted ? false : spurious));
 		if(scripted) sched->scriptHighFirst = prog.params.size() > 2 && (prog.params[2] & 1);
 		if(scripted) for(size_t i = 0; i + 3 <= prog.sched.size(); i += 3) {
@@ -629,7 +643,7 @@ struct Run
 		if(failed) {
 			q.reset();
 			dropSched();
-			dtorHook() = nullptr;
+			dtorHook() = nullptr; copyHook() = nullptr;
 			return;
 		}
 		// final drain by the controller
@@ -646,7 +660,7 @@ struct Run
 		classes();
 		q.reset();
 		dropSched();
-		dtorHook() = nullptr;
+		dtorHook() = nullptr; copyHook() = nullptr;
 		if(! failed) {
 			if(ledger().isFlagged()) fail("ledger.flag", "C06,C08", ledger().message());
 			else if(ledger().totalLive() != 0) fail("ledger.leak", "C06,C08", std::to_string(ledger().totalLive()) + " payload object(s) alive after the queue was destroyed");
@@ -686,7 +700,7 @@ bool onPredicate(int serial) { return g_run ? g_run->predicate(serial) : true; }
 Grammar makeGrammar(const std::string & prop)
 {
 	Grammar g;
-	g.params = { ArgSpec(0, 2), ArgSpec(0, 2), ArgSpec(0, 1) };
+	g.params = { ArgSpec(0, 2), ArgSpec(0, 2), ArgSpec(0, 1), ArgSpec(0, 1) };
 	g.maxSched = 96;
 	g.maxDepth = 2;
 	g.maxTotalOps = 40;
@@ -709,6 +723,10 @@ Grammar makeGrammar(const std::string & prop)
 			{ C_WAITFOR_DRAIN, "waitFor+drain", 4, ArgSpec(0, 1), ArgSpec(0, 5), ArgSpec(0, 0), -1, 0 },
 			{ C_PROCESS, "process", 2, ArgSpec(0, 0), ArgSpec(0, 0), ArgSpec(0, 0), -1, 0 },
 			{ C_PROCESSONE, "processOne", 2, ArgSpec(0, 0), ArgSpec(0, 0), ArgSpec(0, 0), -1, 0 },
+			// processing threads also use the predicate forms: a call that takes events out and puts them back must never
+			// make the queue look empty to a waiter in between
+			{ C_PROCESSIF, "processIf", 2, ArgSpec(0, 3), ArgSpec(0, 1), ArgSpec(0, 0), -1, 0 },
+			{ C_PROCESSUNTIL, "processUntil", 1, ArgSpec(0, 3), ArgSpec(0, 1), ArgSpec(0, 0), -1, 0 },
 		};
 	}
 	else if(prop == "C11") {
@@ -720,10 +738,13 @@ Grammar makeGrammar(const std::string & prop)
 			{ C_PROCESSONE, "processOne", 6, ArgSpec(0, 0), ArgSpec(0, 0), ArgSpec(0, 0), -1, 0 },
 			{ C_TAKE, "takeEvent", 2, ArgSpec(0, 0), ArgSpec(0, 0), ArgSpec(0, 0), -1, 0 },
 			{ C_CLEAR, "clearEvents", 1, ArgSpec(0, 0), ArgSpec(0, 0), ArgSpec(0, 0), -1, 0 },
-			// processIf / processUntil are deliberately absent: C11 quantifies over threads running
-			// process/processOne/takeEvent/clearEvents. (A declining processIf puts events back after an observer may
-			// have seen the list empty, and the observer then reads the counter after the call ended: emptyQueue() can
-			// return true with the declined event pending. Observed, outside the property's domain - see DESIGN.md.)
+			// processIf / processUntil are generated too, with one restriction in the oracle: an emptyQueue() == true that
+			// overlaps such a call is not judged (C11 quantifies over threads running process/processOne/takeEvent/
+			// clearEvents; a declining processIf puts events back after an observer may have seen the list empty, and the
+			// observer then reads the counter after the call ended - observed on the unchanged tree, see DESIGN.md).
+			// waitFor observations are judged in full: its predicate runs under the mutex the put-back needs.
+			{ C_PROCESSIF, "processIf", 2, ArgSpec(0, 3), ArgSpec(0, 1), ArgSpec(0, 0), -1, 0 },
+			{ C_PROCESSUNTIL, "processUntil", 2, ArgSpec(0, 3), ArgSpec(0, 1), ArgSpec(0, 0), -1, 0 },
 		};
 	}
 	else {
@@ -775,6 +796,7 @@ Verdict run(const Program & p, const std::string & prop)
 		cls(r.sentinels > 0, "waiters_released_by_sentinel");
 		cls(r.heter, "heterogeneous_queue");
 		cls(r.knownFifoPutBack, "known_finding_fifo_inversion_after_putback_by_another_thread");
+		cls(r.emptyDuringPredicateCall, "emptyQueue_true_overlapping_a_processIf_or_processUntil_call_not_judged");
 		if(prop == "C06") v.nontrivial = r.overlapPC && r.overlapCC && (r.csPreempt || r.unPreempt);
 		else if(prop == "C07") v.nontrivial = r.waiterParkedAtEnq;
 		else if(prop == "C11") v.nontrivial = r.emptyDuringDispatch;
@@ -820,6 +842,9 @@ std::vector<Program> makeTemplates(const std::string & prop)
 			add(0, { thread({ w }), thread({ w }), thread({ enq0, enq1 }) });
 			add(0, { thread({ w }), thread({ enq0 }), thread({ mk(C_PROCESS) }) });
 			add(1, { thread({ w }), thread({ mk(C_PROCESSONE) }), thread({ enq0 }) });
+			add(0, { thread({ w }), thread({ enq0 }), thread({ mk(C_PROCESSIF, 1, 0) }) });      // a processIf that declines everything
+			add(0, { thread({ w }), thread({ enq0 }), thread({ mk(C_PROCESSUNTIL, 0, 0) }) });   // a processUntil that stops at once
+			add(1, { thread({ w }), thread({ mk(C_PROCESSIF, 1, 0) }), thread({ enq0 }) });
 		}
 	}
 	else if(prop == "C11") {
@@ -830,6 +855,9 @@ std::vector<Program> makeTemplates(const std::string & prop)
 			add(2, { thread({ mk(C_EMPTYQ) }), thread({ c, c }) });
 			add(1, { thread({ mk(C_WAITFOR_DRAIN, 0, 1) }), thread({ c }) });
 		}
+		add(2, { thread({ mk(C_WAITFOR_DRAIN, 0, 1) }), thread({ mk(C_PROCESSUNTIL, 0, 0) }) });
+		add(2, { thread({ mk(C_WAITFOR_DRAIN, 0, 1) }), thread({ mk(C_PROCESSIF, 1, 0) }) });
+		add(2, { thread({ mk(C_WAITFOR_DRAIN, 0, 1) }), thread({ mk(C_PROCESSUNTIL, 2, 0) }), thread({ enq0 }) });
 		for(int i = 0; i < 2; ++i) for(int j = i; j < 2; ++j) {
 			add(2, { thread({ mk(C_EMPTYQ) }), thread({ cons[i] }), thread({ cons[j] }) });
 			add(1, { thread({ mk(C_EMPTYQ) }), thread({ cons[i] }), thread({ enq0, cons[j] }) });
